@@ -476,7 +476,8 @@ def make_midmeasure_divchange_part(rng, late=None):
         k += 1
         part.add(S.Note("D", 3, id=f"n{k}", voice=2, staff=1, symbolic_duration={"type": "half"}), change, m_end)
         return part, q, f, "at-onset-set-before-notes", change, n_before
-    long_first = where == "inside-note"
+    # at-onset: the first voice may reach the change exactly (a half note) or leave a quarter of silence before it
+    long_first = where == "inside-note" or (where == "at-onset" and rng.random() < 0.6)
     part.add(S.Note("G", 4, id=f"n{k}", voice=1, staff=1, symbolic_duration={"type": "half" if long_first else "quarter"}),
              t, t + (2 * q if long_first else q))
     k += 1
@@ -493,9 +494,14 @@ def make_midmeasure_divchange_part(rng, late=None):
         k += 1
     m_end = new_t + 2 * q * f
     part.add(S.Measure(number=n_before + 1), m_start, m_end)
-    if rng.random() < 0.5:
+    r_ = rng.random()
+    if r_ < 0.3:
         # a second voice holding one note through the whole measure (it crosses the change)
         part.add(S.Note("C", 3, id=f"n{k}", voice=2, staff=1, symbolic_duration={"type": "whole"}), m_start, m_end)
+        k += 1
+    elif r_ < 0.8:
+        # a second voice that stops before the change (it is written last: the stretch ends with the cursor short of its end)
+        part.add(S.Note("C", 3, id=f"n{k}", voice=2, staff=1, symbolic_duration={"type": "quarter"}), m_start, m_start + q)
         k += 1
     part.set_quarter_duration(change, q * f)
     if rng.random() < 0.5:
